@@ -260,7 +260,7 @@ pub fn run(args: &Args) -> i32 {
         .shrink_iters(150);
     crate::model::warm_up(6);
     let t = check.tier;
-    let tolerated = crate::run::tolerated_keys(&check, args, &["mislabelled-signature-stored*", "panic-on-submission:name-not-registered"]);
+    let tolerated = crate::run::tolerated_keys(&check, args, &["mislabelled-signature-stored*", "mislabelled-signature-stored", "mislabelled-signature-stored:two-names", "panic-on-submission:name-not-registered*"]);
     check.enumerate("label-signature-product", product().into_iter(), true, |c| run_case(c, &tolerated, false));
     check.section("rounds", case_strategy, t.pick(240, 10000), |c| run_case(c, &tolerated, true));
     check.finish()
